@@ -323,4 +323,6 @@ def targets(tier='quick'):
                replay=rp)
     t.path_end = path_end_update
     T.append(t)
+    from . import delta
+    T += delta.targets(PROP)
     return T
